@@ -6,18 +6,21 @@ From BD.Loader Require Import Str Model Decode Proofs DecodeProofs.
 Open Scope string_scope.
 Open Scope list_scope.
 
-(* C13: loading any tree never panics.  The one hypothesis is about the cron library: it panics on nothing but
-   a spec that is a bare TZ= / CRON_TZ= prefix - which parseCron no longer hands to it (fix 519d0a6). *)
+(* C13: loading any tree never panics.  Two hypotheses remain, both about libraries: the cron parser panics on
+   nothing but a spec that is a bare TZ= / CRON_TZ= prefix - which parseCron no longer hands to it (fix 519d0a6);
+   a parameter value the tokenizer's regular expression matched with its quoted alternative holds its two quotes. *)
 Theorem load_no_panic :
-  forall (cron : string -> cronv), (forall s, cron s = CronPanic -> tz_only s = true) ->
-  forall (sig_ok : string -> bool) (tokenize : string -> list (string * string))
-         (sh : string -> option string) (o : opts) (root : yv) (e : envt),
+  forall (cron : string -> cronv) (sig_ok : string -> bool) (tokenize : string -> list (string * string))
+         (sh : string -> option string),
+  (forall s, cron s = CronPanic -> tz_only s = true) ->
+  (forall s n v, In (n, v) (tokenize s) -> quoted_wf v) ->
+  forall (o : opts) (root : yv) (e : envt),
   outcome (load_tree cron sig_ok tokenize sh o root e) <> Panic.
 Proof.
-  intros cron Hc sig_ok tokenize sh o root e. unfold load_tree.
+  intros cron sig_ok tokenize sh Hc Ht o root e. unfold load_tree.
   pose proof (decode_no_panic root) as Hdec.
   destruct (decode root) as [| |d] eqn:E; try congruence; try discriminate.
-  apply build_no_panic; [exact Hc | exact (decode_no_nil _ _ E)].
+  apply build_no_panic; [exact Hc | exact Ht | exact (decode_no_nil _ _ E)].
 Qed.
 
 (* C19: loading any tree with noEval has no effect and leaves the environment as it is *)
